@@ -114,6 +114,20 @@ def unit_for(mmap):
     m.ensures(own, "handles-are-the-old-ones-or-newly-opened")
     m.ensures("same(self._lines, old(self._lines)) and same(self.jidx, old(self.jidx)) and self._dirty == old(self._dirty) and self.file != None")
     m.ensures(first_at("result"), "index-of-the-first-occurrence")
+    # `x in f` (Sequence.__contains__: a scan through __iter__): True exactly when some item equals x; the list view is not changed
+    m = SQ.method("__contains__", {"value": STR}, BOOL, locals={"v": STR})
+    m.raises("RuntimeError", when="self.file == None")
+    m.modifies(*H)
+    lp = m.loop(1).with_class_invariant()
+    lp.invariant("self.file != None", "still-open")
+    lp.invariant("same(self._lines, old(self._lines)) and same(self.jidx, old(self.jidx))", "lines-kept")
+    lp.invariant("self._dirty == old(self._dirty)", "dirty-kept")
+    lp.invariant(own)
+    lp.invariant("len(_seq1) == %s and forall(t, 0, len(_seq1), _seq1[t] == %s, trigger=_seq1[t])" % (n_, Vf("t")))
+    lp.invariant("forall(t, 0, _i1, %s != value)" % Vf("t"), "no-occurrence-so-far")
+    m.ensures(own, "handles-are-the-old-ones-or-newly-opened")
+    m.ensures("same(self._lines, old(self._lines)) and same(self.jidx, old(self.jidx)) and self._dirty == old(self._dirty)", "list-view-unchanged")
+    m.ensures("result == " + present, "x-in-f<=>some-item-equals-x")
     m = MS.method("remove", {"value": STR})
     m.raises("RuntimeError", when="self.file == None")
     m.raises("ValueError", when="self.file != None and not " + present, ensures=["same(self._lines, old(self._lines))"])
@@ -185,7 +199,7 @@ def unit_for(mmap):
                ("BaseMutableRandomLineAccessFile", "__setitem__", conc), ("BaseMutableRandomLineAccessFile", "__delitem__", conc),
                ("BaseMutableRandomLineAccessFile", "insert", conc), ("MutableSequence", "append", conc), ("MutableSequence", "pop", conc),
                ("MutableSequence", "extend", conc), ("MutableSequence", "__iadd__", conc),
-               ("Sequence", "index", conc), ("MutableSequence", "remove", conc), ("MutableSequence", "reverse", conc),
+               ("Sequence", "index", conc), ("Sequence", "__contains__", conc), ("MutableSequence", "remove", conc), ("MutableSequence", "reverse", conc),
                ("MutableSequence", "clear", conc),
                ("BaseRandomLineAccessFile", "__iter__", conc), ("BaseRandomLineAccessFile", "__len__", conc),
                ("BaseMutableRandomLineAccessFile", "_save_from_iter", conc),
